@@ -215,7 +215,8 @@ class World:
         self.env = TradingEnv(action_space=space, state=feats, transmitter=tr,
                               latency=float(cfg["lat"] * tick), steps_delay=cfg["delay"],
                               episode_length=(cfg["eplen"] or None), initial_cash=1000.0,
-                              sampling_span=(3 if (cfg["eplen"] and len(cfg["events"]) % 2 == 0) else None))
+                              sampling_span=((2 if len(cfg["events"]) > 1000 else 3)
+                                             if (cfg["eplen"] and len(cfg["events"]) % 2 == 0) else None))
         self.sink.env = self.env
         self.sinkx.env = self.env
         self.sinkx2.env = self.env
@@ -264,6 +265,8 @@ class World:
             me.draw = {"n": n, "p": None if p is None else [float(x) for x in p]}
             if n <= 0:
                 return orig(a, size, replace, p)          # let numpy refuse the empty draw itself
+            if p is not None and not all(x == x and x >= 0 for x in me.draw["p"]):
+                return orig(a, size, replace, p)          # ... and probabilities that are not probabilities
             return list(a)[start - 1] if hasattr(a, "__len__") else start - 1
         np.random.choice = choice
         try:
@@ -527,7 +530,7 @@ def compare_call(w, rec, out, val, soft, track_before, pos_before):
             if w.draw is None or w.draw["n"] != n_valid:
                 fails.append(("starts", "start drawn among %s candidates, %d positions fit the episode" % (
                     None if w.draw is None else w.draw["n"], n_valid)))
-            elif w.draw["p"] is not None and any(x <= 0 for x in w.draw["p"]):
+            elif w.draw["p"] is not None and any(not (x > 0) for x in w.draw["p"]):
                 fails.append(("starts", "a valid start has probability 0"))
     return fails
 
